@@ -3,6 +3,8 @@ package c10
 
 import (
 	"bytes"
+	"context"
+	"errors"
 	"fmt"
 	"go/ast"
 	"go/parser"
@@ -16,6 +18,7 @@ import (
 	"strings"
 
 	"github.com/aldas/go-modbus-client/packet"
+	"github.com/aldas/go-modbus-client/server"
 	"verif/libx"
 	"verif/mon"
 	"verif/specref"
@@ -195,28 +198,62 @@ func same(a, b result) string {
 
 // probe: an input whose results are remembered and re-evaluated after many other calls (results must depend on the input only).
 type probe struct {
-	in  []byte
-	res []string
+	in   []byte
+	res  []string
+	errs []error  // the error VALUES handed out by the first evaluation (they must not change afterwards)
+	etxt []string // what they encoded to at that time
 }
 
-func snapshot(in []byte) []string {
+func snapshot(in []byte) ([]string, []error) {
 	out := make([]string, len(entries))
+	errs := make([]error, len(entries))
 	for i := range entries {
 		ps := make([]byte, len(in))
 		copy(ps, in)
 		rs := call(&entries[i], ps)
 		out[i] = fmt.Sprintf("%v|%s|%v|%x", rs.panicked, errText(rs.err), rs.v, rs.bytes)
+		errs[i] = rs.err
 	}
-	return out
+	return out, errs
 }
 
 func recheck(c *Case, r *mon.Rec, p *probe) {
-	now := snapshot(p.in)
-	r.Eval(len(entries))
+	// (1) the error values returned earlier still say what they said
+	for i := range entries {
+		if p.errs[i] != nil && isSentinel(p.errs[i]) {
+			continue // package-level sentinels are shared by design; their content is checked through (2)
+		}
+		if now := errText(p.errs[i]); now != p.etxt[i] {
+			r.Violate(c, "returned-error-changed-later", mon.Attrs{"entry": entries[i].Name}, fmt.Sprintf("input % x: the error value returned by the first call read %s, after other inputs had been parsed the same value reads %s", head(p.in), p.etxt[i], now))
+		}
+	}
+	// (2) the same input gives the same result again
+	now, _ := snapshot(p.in)
+	r.Eval(2 * len(entries))
 	for i := range entries {
 		if now[i] != p.res[i] {
 			r.Violate(c, "result-depends-on-earlier-calls", mon.Attrs{"entry": entries[i].Name}, fmt.Sprintf("input % x: first result %s, after other inputs had been parsed %s", head(p.in), p.res[i], now[i]))
 		}
+	}
+}
+
+func isSentinel(err error) bool {
+	return err == error(packet.ErrTCPDataTooShort) || err == error(packet.ErrIsNotTCPPacket) || err == packet.ErrInvalidCRC
+}
+
+type nopHandler struct{}
+
+func (nopHandler) Handle(ctx context.Context, req packet.Request) (packet.Response, error) {
+	return nil, errors.New("verif: no handler")
+}
+
+// feedAssembler lets the server-side stream assembler (listed among this property's files) see the input too: it must
+// not panic on anything that does not reach the handler, and must leave the parsers' results for other inputs alone.
+func feedAssembler(c *Case, r *mon.Rec, in []byte) {
+	a := &server.ModbusTCPAssembler{Handler: nopHandler{}}
+	cp := append([]byte{}, in...)
+	if p, txt := mon.Catch(func() { a.ReceiveRead(context.Background(), cp, len(cp)) }); p {
+		r.Violate(c, "assembler-panics", mon.Attrs{}, fmt.Sprintf("input (%d bytes) % x: %s", len(in), head(in), txt))
 	}
 }
 
@@ -320,6 +357,8 @@ var probeInputs = [][]byte{
 	{0x01, 0x02, 0x00, 0x00, 0x00, 0x03, 0x21, 0x83, 0x02},                   // exception response
 	{0x01, 0x83, 0x02, 0xc0, 0xf1},                                           // RTU exception
 	{0x01, 0x02, 0x00, 0x00, 0x00, 0x06, 0x01, 0x03, 0x00, 0x00, 0x00, 0x00}, // quantity 0
+	{0x0a, 0x0b, 0x00, 0x00, 0x00, 0x03, 0x0c, 0x03, 0x00},                   // header-consistent but too short for FC3
+	{0x1a, 0x1b, 0x00, 0x00, 0x00, 0x04, 0x1c, 0x10, 0x00, 0x01},             // header-consistent but too short for FC16
 }
 
 func run(ci any, r *mon.Rec) {
@@ -329,7 +368,12 @@ func run(ci any, r *mon.Rec) {
 	var probes []*probe
 	if c.Kind != "census" {
 		for _, in := range probeInputs {
-			probes = append(probes, &probe{in: in, res: snapshot(in)})
+			res, errs := snapshot(in)
+			pr := &probe{in: in, res: res, errs: errs, etxt: make([]string, len(errs))}
+			for i, e := range errs {
+				pr.etxt[i] = errText(e)
+			}
+			probes = append(probes, pr)
 		}
 		defer func() {
 			for _, p := range probes {
@@ -429,6 +473,7 @@ func run(ci any, r *mon.Rec) {
 				in[4], in[5] = byte(n>>8), byte(n)
 			}
 			observe(c, r, in, tailFrame(rng))
+			feedAssembler(c, r, in)
 		}
 	}
 }
